@@ -11,6 +11,7 @@
 import FluteModel.Lemmas.Toi
 import FluteModel.Lemmas.ToiSys
 import FluteModel.Lemmas.ToiWire
+import Std.Data.String.ToNat
 namespace Flute.Props.C15
 open Flute Flute.Toi
 
@@ -186,6 +187,12 @@ theorem fdt_entries_are_object_tois (s : Sys) (v : Nat) (hv : v ∈ s.fdtTois) :
     · exact hv
     · exact Tab.del_subset _ _ _ hv
   · exact hv
+
+/-- the `TOI="…"` attribute is the decimal rendering of the TOI (`self.toi.to_string()`); decimal
+    rendering loses nothing: reading it back gives the TOI (Lean's `Nat.repr`/`String.toNat?` stand for
+    Rust's `u128::to_string`/`str::parse`; that the real XML carries this string is checked by the run) -/
+theorem fdt_attribute_decimal_exact (v : Nat) : (toString v).toNat? = some v :=
+  Nat.toNat?_repr v
 
 /-! ### D5 (repaired): what the unmasked `ToiMax112` did -/
 
